@@ -1711,6 +1711,42 @@ def krun (cfg : Cfg) : List KOp → KSt → KSt × List (Outcome KOut)
     let r2 := krun cfg rest r.1
     (r2.1, r.2 :: r2.2)
 
+/-! ### process exit: what the `main` wrapper adds to a build WITH the collector (audit, second round, item 2)
+
+  Cello.h, `#ifndef CELLO_NGC` only: `main` is a wrapper — `new_raw(GC, $R(&bottom)); atexit(Cello_Exit); return Cello_Main(…)`.
+  `Cello_Exit` → `del_raw(current(GC))` → `GC_Del`: `GC_Unmark; GC_Sweep` with no mark bit set, i.e. the destructor of EVERY block
+  still registered runs and the block is freed.  A build with CELLO_NGC has no wrapper, no registry and no `Cello_Exit`: a block
+  the program did not delete itself is never finalised.  (Texts regenerated: `CelloGen.Cfg.exitHook`.)  Int, String, Ref and
+  the containers have destructors that only release memory; `Tracked` (harness: `Tracked_Del` writes the ledger) stands for a
+  type whose destructor has an effect the outside can see. -/
+
+/-- serial numbers of the `Tracked` objects that are still allocated -/
+def trackedIn (hp : KHeap) : List Int :=
+  hp.filterMap (fun p => match p.2 with
+    | .tracked ident _ _ => some ident
+    | _ => none)
+
+/-- **process exit**: `GC_Del` sweeps everything that is still registered — only in a build that has the collector -/
+def kexit (cfg : Cfg) (s : KSt) : KSt :=
+  if cfg.gc then { s with heap := [], junk := 0 } else s
+
+/-- the destructor ledger in state `s`: the serial numbers given out so far whose object is no longer allocated — a block
+    is freed only after its destructor ran (`GC_Rem`, the sweep and `del_raw` all `destruct` before `dealloc`) -/
+def ledger (s : KSt) : List Int := s.used.filter (fun i => !(trackedIn s.heap).contains i)
+
+/-- the ledger when the process has ended (run `prog` from the start, then leave `main`) -/
+def endLedger (cfg : Cfg) (prog : List KOp) : List Int := ledger (kexit cfg (krun cfg prog KSt.init).1)
+
+/-- the configuration without the collector (the other two switches do not occur in a keep step) -/
+def ngcCfg : Cfg := ⟨true, true, false⟩
+
+/-- **the program releases what it creates**: when it ends in the build WITHOUT a collector, no `Tracked` object is still
+    allocated — every object whose destructor can be observed was deleted by the program itself (`hrem`, `hdel`), none was
+    left to the collector (`hrel`, `hdrop`, a holder alive at exit).  Decidable: one run of the model. -/
+def ReleasesAll (prog : List KOp) : Prop := trackedIn (krun ngcCfg prog KSt.init).1.heap = []
+
+instance (prog : List KOp) : Decidable (ReleasesAll prog) := by unfold ReleasesAll; exact inferInstance
+
 end Keep
 
 /-! ## the whole workload: operations on value objects and keep operations, interleaved (what lean/Driver/Cfg.lean runs) -/
